@@ -64,6 +64,7 @@ func (c *Ctx) droppedDecodeErrors(fn *ssa.Function, names ...string) {
 
 func runC14(c *Ctx) {
 	w := c.W
+	c14Extras(c)
 	fn := w.Fn(fnCRLChk)
 	if fn == nil {
 		c.Undecided("R-CUT", fnCRLChk, "anchor", "-", "not found")
@@ -291,6 +292,7 @@ func (c *Ctx) scanCompleteness(fn *ssa.Function, match FP, what string) {
 
 func runC15(c *Ctx) {
 	w := c.W
+	c15Extras(c)
 	entrySerialEq := func(listField string) FP {
 		return Cmp(func(v ssa.Value) bool {
 			if !ResultOf(-1, fnBigCmp)(v) {
